@@ -227,6 +227,87 @@ def run(ctx):
                      "rejecting; result, my_count, my_tries, my_future_decrement after every operation compared with LimModel")
     diff_tie(ctx, "limiter-seq", exe, ["limseq"], "lim", lcases, describe=lambda c: "limiter_node<int,int>(threshold %d): %s" % (c[0], " ".join(
         {1: "put[", 2: "]accepted", 3: "]rejected", 4: "decrement(%d)" % c[i + 1]}.get(c[i], "?") for i in range(1, len(c) - 1, 2))), bucket=lambda c: "limiter th=%d" % c[0])
+    # priority_queue_node: several operations in ONE aggregator batch (white box)
+    pcases = []
+    for _ in range(ctx.scale(300, 8000)):
+        c = []
+        sim_items, sim_res = [], None          # release / consume are only legal while a reservation is held: simulate to know
+        for _ in range(lrng.randint(1, 6)):
+            for _ in range(lrng.randint(1, 6)):
+                r_ = lrng.random()
+                if r_ < 0.45:
+                    v_ = lrng.randint(1, 60); c += [1, v_]; sim_items.append(v_)
+                elif r_ < 0.6:
+                    c += [2, 0]
+                    if sim_res is None and sim_items:
+                        sim_items.remove(max(sim_items))
+                elif r_ < 0.78 or sim_res is None:
+                    c += [3, 0]
+                    if sim_res is None and sim_items:
+                        sim_res = max(sim_items); sim_items.remove(sim_res)
+                elif r_ < 0.9:
+                    c += [5, 0]; sim_res = None
+                else:
+                    c += [4, 0]; sim_items.append(sim_res); sim_res = None
+            c += [9, 0]
+        pcases.append(c)
+
+    def pbdesc(c):
+        nm = {1: "put(%d)", 2: "get", 3: "reserve", 4: "release", 5: "consume", 9: "|"}
+        return "priority_queue_node<long>, operations handed to the aggregator handler in batches (| = end of batch): " + " ".join((nm[c[i]] % c[i + 1]) if c[i] == 1 else nm[c[i]] for i in range(0, len(c) - 1, 2))
+
+    def prio_batch_oracle(c, toks):
+        """The operations of one batch are all pending together, so any order of them is a legal linearization: a get / reserve may return an item put in the same batch or
+        the largest item that was buffered before the batch and is still there - never a smaller old item while a larger old one is available; every item put is delivered exactly once."""
+        if not toks or toks[-1] == "HANG" or toks[0].startswith("CRASH") or "-7" not in toks:
+            return ("prio-batch-hang-or-crash", pbdesc(c)[:600])
+        vals = [int(x) for x in toks]
+        k7 = vals.index(-7)
+        drained = vals[k7 + 1:]
+        old, new_in_batch, reserved, k = [], [], None, 0          # old = buffered before this batch and still there; new_in_batch = put in this batch and still there
+        delivered, allput = [], []
+        for i in range(0, len(c) - 1, 2):
+            op, v = c[i], c[i + 1]
+            if op == 9:
+                old += new_in_batch; new_in_batch = []
+                continue
+            if 2 * k + 1 >= k7:
+                return ("prio-batch-short-output", pbdesc(c)[:600])
+            st, val = vals[2 * k], vals[2 * k + 1]; k += 1
+            if op == 1:
+                new_in_batch.append(v); allput.append(v)
+            elif op in (2, 3):
+                if st == 1:
+                    if val in new_in_batch:
+                        new_in_batch.remove(val)
+                    elif val in old:
+                        if val != max(old):
+                            return ("prio-batch-not-highest", "%s: operation #%d returned %d although %d, buffered before this batch, was available" % (pbdesc(c)[:900], k - 1, val, max(old)))
+                        old.remove(val)
+                    else:
+                        return ("prio-batch-foreign-item", "%s: operation #%d returned %d, which is not buffered (buffered: %s)" % (pbdesc(c)[:900], k - 1, val, sorted(old + new_in_batch)))
+                    if op == 2:
+                        delivered.append(val)
+                    else:
+                        if reserved is not None:
+                            return ("prio-batch-two-reservations", "%s: operation #%d reserved an item while %d was still reserved" % (pbdesc(c)[:900], k - 1, reserved))
+                        reserved = val
+                elif reserved is None and old:
+                    return ("prio-batch-refused", "%s: operation #%d failed although %s was buffered before the batch and nothing is reserved" % (pbdesc(c)[:900], k - 1, sorted(old)))
+            elif op == 4:
+                if reserved is not None:
+                    new_in_batch.append(reserved); reserved = None
+            else:
+                if reserved is not None:
+                    delivered.append(reserved); reserved = None
+        if sorted(delivered + drained) != sorted(allput):
+            return ("prio-batch-conservation", "%s: put %s, delivered by get / consumed reservations %s, drained at the end %s - every item must come out exactly once" % (pbdesc(c)[:900], sorted(allput), sorted(delivered), drained))
+        if drained != sorted(drained, reverse=True):
+            return ("prio-batch-drain-order", "%s: the final drain (one get at a time) returned %s, not in priority order" % (pbdesc(c)[:900], drained))
+        return None
+    ctx.rules.append("prio-batch (oracle only): priority_queue_node<long>, 1-6 batches of 1-6 put / get / reserve / release / consume records handed to the node's handle_operations as ONE batch each (what happens "
+                     "when several threads queue operations behind an active handler): a get / reserve returns an item put in the same batch (all operations of a batch are concurrent) or the largest item buffered before it; every item put comes out exactly once (the node is drained at the end, in priority order)")
+    oracle_tie(ctx, "prio-batch", exe, ["priobatch"], pcases, prio_batch_oracle, describe=pbdesc, bucket=lambda c: "prio-batch ops=%d" % (len(c) // 2))
     # join_node (queueing), op by op, against JoinModel
     jcases = []
     for _ in range(ctx.scale(250, 6000)):
